@@ -276,6 +276,7 @@ class SamplesSaveModel(Contract):
         root = h5.f["root"] if h5.cls == "H5File" else h5
         g = group_path(I, root, path.v, create=True, node=node)
         g.f["stored_samples"] = bound
+        g.f["stored_flat"] = kwargs.get("flat", args[2] if len(args) > 2 else B(False))
         return NONE
 
     def usable_at_call(self, I, q):
@@ -346,6 +347,12 @@ class HistorySaveLoad(Contract):
             want = g["series0"][nm]
             good = items is not None and len(items) == len(want)
             p.prove(z3.And([z3.BoolVal(good)] + ([I.equal(a, b) for a, b in zip(items, want)] if good else [])), f"{q}:C13:series `{nm}` reloads with the same entries {tag}")
+        # stored populations use the nested layout (parameter columns in their own group): in the flat layout a parameter called `beta`, `log_q`, ...
+        # shares a name with a field of the sample set and that field does not survive the reload
+        sh_grp = g["h5"].f["root"].f["members"].d.get("smc_history__sample_history")
+        flats = [m.f.get("stored_flat") for m in sh_grp.f["members"].d.values()] if sh_grp is not None else []
+        p.prove(z3.And([z3.Not(I.truth(f)) if f is not None else z3.BoolVal(False) for f in flats] + [z3.BoolVal(len(flats) == sh["n"])]),
+                f"{q}:C13:every stored population is written in the nested layout, where parameter names cannot collide with the fields of the sample set {tag}")
         # the live history is not disturbed by saving it
         cur = g["h"].f.get("sample_history")
         p.prove(z3.BoolVal(isinstance(cur, PyList) and len(cur.items) == len(g["pops"]) and all(a is b for a, b in zip(cur.items, g["pops"]))),
